@@ -20,6 +20,7 @@ import os
 import re
 import shutil
 import signal
+import sys
 import tempfile
 import token as _token
 import tokenize
@@ -293,6 +294,60 @@ ALIAS = {
 ID_RE = re.compile(r"[A-Za-z0-9_]*$")
 
 
+FROM_NAMES_RE = re.compile(r"^\s*from\s+([A-Za-z_][\w.]*)\s+import\s+((?:\w+(?:\s+as\s+\w+)?\s*,\s*)*)(\w*)$")
+
+
+def module_names(source):
+    """every name a module binds at top level (what `for name in pymodule` yields for it)"""
+    out = set()
+    for n in ast.parse(source).body:
+        for x in ast.walk(n):
+            if isinstance(x, (ast.FunctionDef, ast.AsyncFunctionDef, ast.ClassDef)) and x is n:
+                out.add(x.name)
+            elif isinstance(x, ast.Name) and isinstance(x.ctx, ast.Store) and isinstance(n, (ast.Assign, ast.AnnAssign)):
+                out.add(x.id)
+            elif isinstance(x, ast.alias) and isinstance(n, (ast.Import, ast.ImportFrom)):
+                out.add(x.asname or x.name.split(".")[0])
+    return out
+
+
+def helper_modules():
+    from harness import c20_gen
+    return {c20_gen.HELPER_MODULE: c20_gen.HELPER_SOURCE}
+
+
+def write_helpers(root):
+    for name, source in helper_modules().items():
+        path = os.path.join(root, name + ".py")
+        if not os.path.exists(path):
+            with open(path, "w") as f:
+                f.write(source)
+
+
+def from_import_oracle(before, proposals):
+    """the cursor is in the list of names of a single-line `from m import a, b|`: what is offered are names of m - all
+    of them with the typed prefix when m is a module the harness put into the project, none when m does not exist
+    (keywords aside).  Returns a signature, "" (judged, fine) or None (not such a position)."""
+    m = FROM_NAMES_RE.match(before)
+    if m is None:
+        return None
+    mod, prefix = m.group(1), m.group(3)
+    pairs = [(p if isinstance(p, tuple) else (p.name, p.scope)) for p in proposals]
+    names = {n for (n, sc) in pairs if sc != "keyword"}
+    helpers = helper_modules()
+    if mod in helpers:
+        want = {x for x in module_names(helpers[mod]) if x.startswith(prefix)}
+    elif mod.split(".")[0] in sys.stdlib_module_names:
+        return ""
+    else:
+        want = set()
+    if names - want:
+        return "from-import:not-a-name-of-the-module"
+    if want - names:
+        return "from-import:name-of-the-module-missing"
+    return ""
+
+
 def light_oracle(text, offset, proposals):
     """textual checks that need no parse (they also apply to the truncated, invalid texts): every proposal
     extends the identifier characters typed before the cursor; after a dot no keyword is proposed; without a
@@ -301,6 +356,9 @@ def light_oracle(text, offset, proposals):
     before = text[ls:offset]
     if any(ch in before for ch in "'\"#\\"):
         return None                      # possibly inside a string / comment: the raw text is used there
+    sig = from_import_oracle(before, proposals)
+    if sig is not None:
+        return sig or None
     prefix = ID_RE.search(before).group()
     head = before[:len(before) - len(prefix)].rstrip(" \t")
     dotted = head.endswith(".") and not re.search(r"(^|[^\w.])\d[\d_]*\.$", head)    # `3.` is a number
@@ -487,6 +545,7 @@ def sweep_module(src, full=True, expect=None):
         stats = {"calls": 0}
         found = {}
         try:
+            write_helpers(d)
             project = Project(d, ropefolder=None)
             try:
                 for (text, offset, trunc) in texts_of(src):
@@ -512,6 +571,7 @@ def replay_one(rec):
     from rope.base.project import Project
     d = tempfile.mkdtemp(prefix="ropeverif-c20s-")
     try:
+        write_helpers(d)
         project = Project(d, ropefolder=None)
         try:
             text, offset = rec["text"], rec["offset"]
